@@ -241,6 +241,9 @@ func (x *Exec) eval(env *Env, e CExpr) *Value {
 			if v.Typ != nil && isBVType(v.Typ, x.Mode) {
 				return &Value{T: app("bvneg", x.term(v)), Typ: v.Typ}
 			}
+			if v.Typ != nil && isFloatType(v.Typ) {
+				return &Value{T: app("fneg", x.term(v)), Typ: v.Typ}
+			}
 			return &Value{T: app("-", x.term(v)), Typ: v.Typ}
 		case "^":
 			if v.Typ != nil && isBVType(v.Typ, x.Mode) {
@@ -296,6 +299,22 @@ func (x *Exec) eval(env *Env, e CExpr) *Value {
 func (x *Exec) evalIdent(env *Env, name string) *Value {
 	if v, ok := env.vars[name]; ok {
 		return v
+	}
+	if name == "$iter" && env.frame != nil {
+		// position of the (unique) string iterator of the current frame
+		var found *Value
+		for _, rv := range env.frame.Regs {
+			if rv != nil && rv.It != nil && rv.It.Kind == "string" {
+				if found != nil && found != rv {
+					x.limit("$iter is ambiguous: several string iterators in %s", env.frame.Fn.Name())
+				}
+				found = rv
+			}
+		}
+		if found == nil {
+			x.limit("$iter: no string iterator in scope")
+		}
+		return env.st.cells[found.It.Pos]
 	}
 	if v := x.lookupLocal(env, name); v != nil {
 		return v
